@@ -24,6 +24,9 @@ var fineGrained = map[string][]string{
 		"internal/listobjects/pipeline/internal/worker/basic.go",
 		"internal/listobjects/pipeline/internal/worker/medium.go",
 	},
+	"hsql": {
+		"pkg/storage/memory/memory.go",
+	},
 	"hiter": {
 		"pkg/storage/storagewrappers/sharediterator/shared_iterator_datastore.go",
 	},
